@@ -270,7 +270,10 @@ func scenario(in input) *engine.Scenario {
 	tr := &udpx.Trace{}
 	sc := &engine.Scenario{Name: "udp-metrics", Opt: vrt.Options{Horizon: udpx.Horizon}}
 	sc.Body = func() {
-		cfg := udpx.Config{Keys: udpx.DefaultKeys(), NatTimeout: 5 * time.Minute}
+		// (the second key's ID is the empty string: legal, and reported like any other)
+		ks := udpx.DefaultKeys()
+		ks[1] = world.MakeKey("", ks[1].Cipher, ks[1].Secret)
+		cfg := udpx.Config{Keys: ks, NatTimeout: 5 * time.Minute}
 		if in.Real {
 			cfg.Real = newReal
 		}
